@@ -33,6 +33,8 @@ Definition go_upd (l : list Z) (i : Z) (x : Z) : gores (list Z) :=
 Definition go_slice (l : list Z) (lo hi : Z) : gores (list Z) :=
   if (0 <=? lo) && (lo <=? hi) && (hi <=? go_len l)
   then Val (firstn (Z.to_nat (hi - lo)) (skipn (Z.to_nat lo) l)) else GoPanic.
+(* x[lo:] was handed to a callee that wrote through it: its cells replace x's cells from lo on *)
+Definition go_splice (l : list Z) (lo : Z) (sub : list Z) : list Z := firstn (Z.to_nat lo) l ++ sub.
 Definition go_nonneg (c : Z) : gores Z := if 0 <=? c then Val c else GoPanic.
 
 Definition go_err_eqb (a b : option string) : bool :=
